@@ -211,11 +211,23 @@ class Gen:
         names = r.sample(NT_NAMES, nd)
         # definitions may only refer to earlier-created ones: no cycles
         for name in names:
-            if self.words and r.random() < 0.3:
-                # a definition usable inside words: alternatives of literals or a command
+            if self.words and r.random() < 0.35:
+                # a definition usable inside words: alternatives of literals, a command, or again a
+                # within-word expression over earlier word-safe definitions (nesting through definitions)
                 vals = r.sample(WORD_VALUES, r.randint(1, 3))
-                if self.cmds and r.random() < 0.3:
+                earlier = self.word_defs()
+                k = r.random()
+                if self.cmds and k < 0.25:
                     body = self.new_cmd(in_word=True)
+                elif earlier and k < 0.6:
+                    inner = nt(r.choice(earlier))
+                    head = lit(r.choice(['n', 'm.', 'lvl-', 'x']) + str(len(self.defs)), None)
+                    if r.random() < 0.5:
+                        body = ('word', (head, inner))
+                    else:
+                        tail = ('word', (lit(vals[0], self.descr_of.setdefault(vals[0], None)),
+                                         self.new_cmd(in_word=True))) if self.cmds and r.random() < 0.5 else inner
+                        body = alt(lit(vals[-1] + 'q', None), ('word', (head, tail)))
                 else:
                     body = alt(*[lit(v, self.descr_of.setdefault(v, None)) for v in vals])
                 self.def_word_safe[name] = True
